@@ -9,7 +9,7 @@ import (
 	"errors"
 	"fmt"
 	"io"
-	"math"
+	mathbits "math/bits"
 
 	"github.com/wrgl/wrgl/pkg/encoding"
 	"github.com/wrgl/wrgl/pkg/misc"
@@ -30,7 +30,7 @@ var typeStrs = map[int]string{
 }
 
 func encodeObjTypeAndLen(buf encoding.Bufferer, objType int, u uint64) []byte {
-	bits := int(math.Floor(math.Log2(float64(u)) + 1))
+	bits := mathbits.Len64(u)
 	numBytes := (bits-4)/7 + 1
 	if (bits-4)%7 > 0 {
 		numBytes += 1
